@@ -1,5 +1,5 @@
-\* thorough: two files, all subsets of <= 2 kinds and the full set, <= 2 faults, exact phase order, liveness
-SPECIFICATION FairSpec
+\* thorough: two files, all subsets of <= 2 kinds and the full set, <= 2 faults, exact phase order
+SPECIFICATION Spec
 CONSTANTS
   MaxFiles = 2
   MaxFaults = 2
@@ -13,5 +13,4 @@ CONSTANTS
   PhasesUsed = {"load", "include", "scan", "syscmd", "linear", "parse", "abnorm", "macex", "abcheck", "scobind", "tinfer", "genfoam", "optfoam", "putao", "putlisp", "putjava", "putc", "putobject"}
   KindsUsed = {"ai", "ap", "asy", "ao", "fm", "lsp", "c", "java", "main"}
 INVARIANTS TypeOK HonestExit CompleteOnSuccess NoOutputAfterError FailureSurfaces NothingOpenAtSuccess PendingIsReported
-PROPERTY Total
 CHECK_DEADLOCK TRUE
